@@ -610,6 +610,15 @@ def obligations(tier):
                         "bounds and a placeable first CDS position), refused with InvalidCDSIntervalError otherwise - including CDS blocks inside the intron, which the outer-"
                         "bounds comparison alone lets through", bounds="2 exons (intron >= 1), 1..2 CDS blocks, unbounded symbolic coordinates",
                    examples=[dict(s0=0, l0=10, g1=30, l1=10, cs=5, cl=5, c2s=30, c2l=1, two=True), dict(s0=0, l0=10, g1=30, l1=10, cs=5, cl=5, c2s=40, c2l=5, two=True)]))
+    from harness.c02 import _ex2, _params2, _pre2, parent_flags_fn
+
+    for kind in ("mismatch_placement", "mismatch_placement_strand", "mismatch_grandparent", "mismatch_type"):
+        out.append(Obl("strict_parent_compare_refuses_%s" % kind, parent_flags_fn(kind, True), _params2(1, 1, {"p": int}), _pre2(1, 1), budget=120, cost=4,
+                       desc="(shared with C02) has_overlap / intersection / minus / contains with strict_parent_compare on locations whose parents differ only in %s: "
+                            "refused with MismatchedParentException, nothing is combined across two coordinate systems" % {
+                                "mismatch_placement": "WHERE the same-named system sits on its own parent", "mismatch_placement_strand": "the strand of the system's placement on its own parent",
+                                "mismatch_grandparent": "the grandparent's id", "mismatch_type": "the sequence type"}[kind],
+                       bounds="1x1 blocks, unbounded symbolic coordinates", examples=[_ex2(1, 1, p=5)]))
     out.append(Obl("deep_location", deep_location(), dict(n=int), lambda n: n == 2 or n == 400 or n == 1200 or n == 5000, budget=120, cost=10,
                    desc="locations with 2 / 400 / 1200 / 5000 blocks answer positional queries without RecursionError", bounds="4 sizes (concrete)",
                    examples=[dict(n=400)]))
